@@ -1,6 +1,6 @@
 """What MANIFEST.json claims (kept apart from the check logic)."""
 TECHNIQUE = "Lean 4 proof over hand-written executable model + differential correspondence with the Go implementation"
-HOOK_COMMITS = ["6d567af", "1215bca", "9d3f334"]
+HOOK_COMMITS = ["6d567af", "1215bca", "9d3f334", "8c825b5"]
 NOTES = ("See DESIGN.md. Every check: lake build of the property module + axiom audit, harness rebuilt from /repo working "
          "tree with -tags verif, corpus + generated cases judged by the compiled Lean driver (model output and monitor predicate).")
 DEFAULT_NA = "machinery under construction in this round (design in DESIGN.md §6); not yet claimed"
@@ -10,6 +10,8 @@ _TB = ("Trusted: Lean kernel + propext/Classical.choice/Quot.sound; hand-written
 ENGINES = [
     {"name": "conc", "path": "go/cmd/corr/conc.go", "serves_properties": ["C06"],
      "kind_free_text": "concurrency: goroutines on one shared WAF + WAF builders, built with -race; every outcome vs sequential outcome and vs the Lean model"},
+    {"name": "parse", "path": "go/cmd/corr/parse.go", "serves_properties": ["C16"],
+     "kind_free_text": "differential + round trip: structured rule descriptions rendered in many equivalent layouts and near-miss texts, compiled by the real parser (rule dump hook) vs the Lean parser model, the description and the reference grammar"},
     {"name": "fault", "path": "tools/faults.py", "serves_properties": ["C20"],
      "kind_free_text": "fault injection: strace-injected syscall failures (one per run, placement verified) into scripted transactions run by go/cmd/corr/faultrun.go; observed report vs the Lean fault model"},
     {"name": "nopanic", "path": "go/cmd/corr/nopanic.go", "serves_properties": ["C07"],
@@ -101,6 +103,18 @@ CLAIMED = {
              "from an entry marked deleted (C06_memoize, C06_memoize_live). Tied to /repo by `conc` under the race detector.",
         note=_TB + "Partial: the Go memory model is outside Lean; races are shown by the race detector on the schedules that occur.",
         ref="6/C06", engine="conc"),
+    "C16": dict(
+        text="Lean 4 theorems over a model of the SecLang parser as written in Go: comment/blank lines may be inserted "
+             "anywhere and indentation never matters (for every parser state incl. continuation and backtick blocks); a "
+             "directive split with a backslash equals the unsplit line; directive names are case-insensitive; an action is "
+             "determined by its trimmed lower-cased name and its trimmed value minus one pair of quotes, and quoting a "
+             "value is the identity; an operator written with backslash-quote escapes is cut out exactly and unescapes to "
+             "itself, for every operator that can be written at all. A reference grammar of target lists (Spec/Parse.lean) "
+             "states what a target list means. Tied to /repo by `parse`: descriptions -> renderings/near-misses -> real "
+             "parser (rule dump) vs the model, the description, and the reference grammar.",
+        note=_TB + "Partial: equality of the target scanner with the reference grammar on all byte strings and the "
+                   "parseActions round trip are decided by the correspondence, not by a theorem.",
+        ref="6/C16", engine="parse"),
     "C20": dict(
         text="Lean 4 theorems over a model of the file-touching paths (BodyBuffer Write/Reader/Reset, multipart upload "
              "loop, ProcessRequestBody error path, AuditLog body read, Close) on an abstract file system with an arbitrary "
